@@ -3,7 +3,7 @@
 //! worker thread fills in and that is merged afterwards.
 use serde::{Deserialize, Serialize};
 use serde_json::{json, Value};
-use std::collections::{BTreeMap, BTreeSet};
+use std::collections::{BTreeMap, BTreeSet, HashSet};
 use std::hash::{Hash, Hasher};
 use std::path::PathBuf;
 use std::sync::atomic::{AtomicU64, Ordering};
@@ -54,14 +54,18 @@ pub fn hash64<T: Hash>(t: &T) -> u64 {
 #[derive(Default)]
 pub struct Stats {
     pub evals: u64,
-    pub nontrivial: BTreeSet<u64>,
+    pub nontrivial: HashSet<u64>,
     pub classes: BTreeMap<String, u64>,
     pub samples: Vec<Value>,
     pub sample_cap: usize,
     pub findings: BTreeMap<String, (Finding, u64)>,
     pub extra: BTreeMap<String, Value>,
     pub undecided: u64,
+    pub nontrivial_capped: bool,
+    pub sample_kinds: BTreeMap<String, usize>,
+    pub harness_errors: Vec<String>,
 }
+pub const NONTRIVIAL_CAP: usize = 40_000_000;
 impl Stats {
     pub fn new() -> Stats {
         Stats { sample_cap: 6, ..Default::default() }
@@ -73,7 +77,19 @@ impl Stats {
         self.evals += n;
     }
     pub fn nontrivial<T: Hash>(&mut self, key: &T) {
-        self.nontrivial.insert(hash64(key));
+        if self.nontrivial.len() < NONTRIVIAL_CAP {
+            self.nontrivial.insert(hash64(key));
+        } else {
+            self.nontrivial_capped = true;
+        }
+    }
+    /// keep up to `cap` samples per kind
+    pub fn sample_kind(&mut self, kind: &str, cap: usize, v: impl FnOnce() -> Value) {
+        let n = self.sample_kinds.entry(kind.to_string()).or_insert(0);
+        if *n < cap {
+            *n += 1;
+            self.samples.push(v());
+        }
     }
     pub fn class(&mut self, name: &str) {
         *self.classes.entry(name.to_string()).or_insert(0) += 1;
@@ -107,12 +123,21 @@ impl Stats {
     pub fn merge(&mut self, o: Stats) {
         self.evals += o.evals;
         self.undecided += o.undecided;
-        self.nontrivial.extend(o.nontrivial);
+        self.nontrivial_capped |= o.nontrivial_capped;
+        self.harness_errors.extend(o.harness_errors);
+        for h in o.nontrivial {
+            if self.nontrivial.len() < NONTRIVIAL_CAP {
+                self.nontrivial.insert(h);
+            } else {
+                self.nontrivial_capped = true;
+                break;
+            }
+        }
         for (k, v) in o.classes {
             *self.classes.entry(k).or_insert(0) += v;
         }
         for s in o.samples {
-            if self.samples.len() < self.sample_cap.max(6) {
+            if self.samples.len() < 24 {
                 self.samples.push(s);
             }
         }
@@ -287,6 +312,12 @@ impl Ctx {
         cov.insert("classes".into(), json!(self.stats.classes));
         cov.insert("known_excluded".into(), json!(known_hits));
         cov.insert("undecided".into(), json!(self.stats.undecided));
+        if self.stats.nontrivial_capped {
+            cov.insert("distinct_nontrivial_is_lower_bound".into(), json!(true));
+        }
+        for e in &self.stats.harness_errors {
+            self.inconclusive.push(format!("harness error: {}", e));
+        }
         for (k, v) in &self.stats.extra {
             cov.insert(k.clone(), v.clone());
         }
@@ -390,7 +421,15 @@ where
                 std::thread::Builder::new().stack_size(256 << 20).spawn_scoped(s, move || f(w)).unwrap()
             })
             .collect();
-        hs.into_iter().map(|h| h.join().unwrap_or_else(|_| Stats::new())).collect()
+        hs.into_iter()
+            .map(|h| {
+                h.join().unwrap_or_else(|e| {
+                    let mut st = Stats::new();
+                    st.harness_errors.push(format!("worker thread panicked: {}", crate::types::panic_msg(e)));
+                    st
+                })
+            })
+            .collect()
     });
     for r in res {
         all.merge(r);
